@@ -6,6 +6,7 @@ import (
 	"maps"
 	"net/http"
 	"os"
+	"path/filepath"
 	"strconv"
 	"strings"
 
@@ -560,20 +561,70 @@ func (r *Runner) Format(rslv resolver.Resolver) error {
 	}
 
 	formatted := formatter.New(r.config.Format).Format(vcl)
-	var w io.Writer
-	if r.config.Format.Overwrite {
-		writeln(cyan, "Formatted %s.", main.Name)
-		fp, err := os.OpenFile(main.Name, os.O_TRUNC|os.O_WRONLY, 0o644)
-		if err != nil {
-			return errors.WithStack(err)
-		}
-		defer fp.Close()
-		w = fp
-	} else {
-		w = os.Stdout
+	if formatted == nil {
+		// Formatter only handles declarations (e.g. statement-only snippet is not supported)
+		return fmt.Errorf("%s could not be formatted: only VCL declarations are supported", main.Name)
 	}
-	if _, err := io.Copy(w, formatted); err != nil {
+	if !r.config.Format.Overwrite {
+		if _, err := io.Copy(os.Stdout, formatted); err != nil {
+			return err
+		}
+		return nil
+	}
+	if err := overwriteFile(main.Name, formatted); err != nil {
 		return err
 	}
+	writeln(cyan, "Formatted %s.", main.Name)
+	return nil
+}
+
+// overwriteFile replaces the file content atomically: the new content is written
+// to a temporary file in the same directory and renamed over the target only after
+// it has been completely written, so that any failure leaves the original file intact.
+func overwriteFile(name string, content io.Reader) error {
+	// Replace the link target, not the symbolic link itself
+	target, err := filepath.EvalSymlinks(name)
+	if err != nil {
+		return errors.WithStack(err)
+	}
+	info, err := os.Stat(target)
+	if err != nil {
+		return errors.WithStack(err)
+	}
+	// Keep refusing to rewrite a file which we are not allowed to write
+	fp, err := os.OpenFile(target, os.O_WRONLY, 0)
+	if err != nil {
+		return errors.WithStack(err)
+	}
+	fp.Close()
+
+	tmp, err := os.CreateTemp(filepath.Dir(target), "."+filepath.Base(target)+".tmp-*")
+	if err != nil {
+		return errors.WithStack(err)
+	}
+	committed := false
+	defer func() {
+		if !committed {
+			tmp.Close()
+			os.Remove(tmp.Name())
+		}
+	}()
+
+	if _, err := io.Copy(tmp, content); err != nil {
+		return errors.WithStack(err)
+	}
+	if err := tmp.Chmod(info.Mode().Perm()); err != nil {
+		return errors.WithStack(err)
+	}
+	if err := tmp.Sync(); err != nil {
+		return errors.WithStack(err)
+	}
+	if err := tmp.Close(); err != nil {
+		return errors.WithStack(err)
+	}
+	if err := os.Rename(tmp.Name(), target); err != nil {
+		return errors.WithStack(err)
+	}
+	committed = true
 	return nil
 }
